@@ -27,6 +27,7 @@ type PropConfig struct {
 	Overflow  bool     `json:"overflow"`       // generate overflow obligations
 	Guards    bool     `json:"guards"`         // lockset obligations
 	Kinds     []string `json:"kinds"`          // if set, only these obligation kinds count for this property
+	NameHas   []string `json:"name_contains"`  // if set, an obligation counts only if its name contains one of these
 	MinObl    int      `json:"min_obligations"`
 	Notes     []string `json:"assumptions"`
 	Replay    string   `json:"replay"`         // name of the replay driver (replay/<name>.sh)
@@ -189,9 +190,44 @@ func cmdCheck(args []string) {
 		}
 	}
 	opt := Options{Overflow: cfg.Overflow, Guards: cfg.Guards, Timeout: timeout, TmpDir: *tmp}
+	if len(cfg.Kinds) > 0 || len(cfg.NameHas) > 0 {
+		opt.Want = func(ob *Obligation) bool {
+			if len(cfg.Kinds) > 0 {
+				ok := false
+				for _, x := range cfg.Kinds {
+					if x == ob.Kind || strings.HasPrefix(ob.Kind, x) {
+						ok = true
+					}
+				}
+				if !ok {
+					return false
+				}
+			}
+			if len(cfg.NameHas) > 0 {
+				for _, x := range cfg.NameHas {
+					if strings.Contains(ob.Name, x) {
+						return true
+					}
+				}
+				return false
+			}
+			return true
+		}
+	}
 	results := make([]*FuncResult, len(fns))
 	parallel(len(fns), 8, func(i int) { results[i] = sh.verifyFunc(fns[i], opt) })
 
+	nameOK := func(n string) bool {
+		if len(cfg.NameHas) == 0 {
+			return true
+		}
+		for _, x := range cfg.NameHas {
+			if strings.Contains(n, x) {
+				return true
+			}
+		}
+		return false
+	}
 	kindOK := func(k string) bool {
 		if len(cfg.Kinds) == 0 {
 			return true
@@ -248,8 +284,8 @@ func cmdCheck(args []string) {
 			continue
 		}
 		for _, ob := range r.Obligations {
-			if !kindOK(ob.Kind) {
-				assumptions["obligation kind not claimed by this property (assumed): "+ob.Kind] = true
+			if !kindOK(ob.Kind) || (!ob.Cover && !ob.Canary && !nameOK(ob.Name)) {
+				assumptions["obligations of kind "+ob.Kind+" outside this property's claim are not counted here (they belong to other properties or are assumed)"] = true
 				continue
 			}
 			if ob.Cover || ob.Canary {
